@@ -193,6 +193,8 @@ impl ReaderGroup {
         let mut max_diff: usize = 0;
         unsafe {
             for reader_ptr in &self.readers {
+                #[cfg(multiqueue2_verif)]
+                crate::verif_hooks::touch(self as *const ReaderGroup as usize, "ReaderGroup scan");
                 // If a reader has passed the writer during this function call
                 // then what must have happened is that somebody else has completed this
                 // written to the queue, and a reader has bypassed it. We should retry
@@ -229,6 +231,8 @@ impl ReadCursor {
         loop {
             unsafe {
                 let first_ptr = self.readers.load(CONSUME);
+                #[cfg(multiqueue2_verif)]
+                crate::verif_hooks::touch(first_ptr as usize, "ReaderGroup dereference in get_max_diff");
                 let rg = &*first_ptr;
                 let rval = rg.get_max_diff(cur_writer);
                 // This check ensures that the pointer hasn't changed
@@ -257,6 +261,8 @@ impl ReadCursor {
         let mut current_ptr = self.readers.load(CONSUME);
         loop {
             unsafe {
+                #[cfg(multiqueue2_verif)]
+                crate::verif_hooks::touch(current_ptr as usize, "ReaderGroup dereference in add_stream");
                 let current_group = &*current_ptr;
                 let raw = (*reader.pos).pos_data.load_raw(Ordering::Relaxed);
                 let wrap = (*reader.pos).pos_data.wrap_at();
@@ -290,6 +296,8 @@ impl ReadCursor {
         let mut current_group = self.readers.load(CONSUME);
         loop {
             unsafe {
+                #[cfg(multiqueue2_verif)]
+                crate::verif_hooks::touch(current_group as usize, "ReaderGroup dereference in remove_reader");
                 let new_group = (*current_group).remove_reader(reader.pos);
                 match self.readers.compare_exchange(
                     current_group,
@@ -320,6 +328,8 @@ impl ReadCursor {
     pub fn has_readers(&self) -> bool {
         unsafe {
             let current_group = &*self.readers.load(CONSUME);
+            #[cfg(multiqueue2_verif)]
+            crate::verif_hooks::touch(current_group as *const ReaderGroup as usize, "ReaderGroup dereference in has_readers");
             current_group.readers.is_empty()
         }
     }
